@@ -130,7 +130,7 @@ Proof.
 Qed.
 
 Lemma resolve_ok : forall E st r x, fst (resolve E st r) = Ok x ->
-  x = spec_meta E st
+  x = served_meta E st
   /\ (forall mk, resolved E st = Some mk ->
         quiet st mk (OpRead, r) /\ exists b md, cur_bytes st mk = Some b /\ parse_meta E b = Some md /\ x = Some md)
   /\ (forall mk, hinted E st = Some mk -> quiet st mk (OpExists, r)).
@@ -157,7 +157,7 @@ Proof.
     destruct Hb as [Hb Hq]. split; [exact Hq|]. exists b.
     destruct (parse_meta E b) as [md|] eqn:Hp; simpl in H; [|discriminate]. exists md. inversion H. auto. }
   split; [|split; [exact Hmain|exact Hq2]].
-  unfold spec_meta. destruct (resolved E st) as [mk|] eqn:Hres; simpl.
+  unfold served_meta. destruct (resolved E st) as [mk|] eqn:Hres; simpl.
   - destruct (Hmain mk eq_refl) as [_ [b [md [Hb [Hp ->]]]]]. rewrite Hb. simpl. rewrite Hp. reflexivity.
   - simpl in H. inversion H. reflexivity.
 Qed.
@@ -378,7 +378,7 @@ Proof.
       * destruct (id =? -1) eqn:Hid; simpl in H; [|discriminate]. inversion H. apply Z.eqb_eq in Hid. subst. auto.
       * simpl in H. inversion H. auto.
   - (* nothing resolves: the model follows the code and reports no files *)
-    assert (Hn : spec_meta E st = None) by (unfold spec_meta; rewrite Hrs; reflexivity).
+    assert (Hn : served_meta E st = None) by (unfold served_meta; rewrite Hrs; reflexivity).
     rewrite Hspec, Hn in H.
     apply bind_ok in H. destruct H as [r1 [Hr1 H]]. apply resolve_ok in Hr1. destruct Hr1 as [Hspec1 _].
     rewrite Hspec1, Hn in H. simpl in H. inversion H. reflexivity.
@@ -425,14 +425,14 @@ Proof.
 Qed.
 
 (* ---------------------------------------------------------------- specification-side facts *)
-Lemma spec_meta_inv : forall E st md, spec_meta E st = Some md ->
+Lemma served_meta_inv : forall E st md, served_meta E st = Some md ->
   exists mk b, resolved E st = Some mk /\ cur_bytes st mk = Some b /\ parse_meta E b = Some md.
 Proof.
-  intros E st md H. unfold spec_meta, obind in H. destruct (resolved E st) as [mk|]; [|discriminate].
+  intros E st md H. unfold served_meta, obind in H. destruct (resolved E st) as [mk|]; [|discriminate].
   destruct (cur_bytes st mk) as [b|] eqn:Hb; [|discriminate]. exists mk, b. auto.
 Qed.
 
-Lemma stage1_snap : forall E st dfs md s, stage1 E st dfs -> spec_meta E st = Some md -> find_snap md = Some s ->
+Lemma stage1_snap : forall E st dfs md s, stage1 E st dfs -> served_meta E st = Some md -> find_snap md = Some s ->
   meta_quiet E st 0 /\
   exists lb ms dfss,
     cur_bytes st (slist s) = Some lb /\ list_content E lb = Some ms
@@ -440,7 +440,7 @@ Lemma stage1_snap : forall E st dfs md s, stage1 E st dfs -> spec_meta E st = So
     /\ Forall2 (manifest_read E st) ms dfss /\ dfs = dedupe (List.concat dfss)
     /\ spec_dfiles E st s = Some dfs.
 Proof.
-  intros E st dfs md s H Hm Hs. apply spec_meta_inv in Hm. destruct Hm as [mk [b [Hr [Hb Hp]]]].
+  intros E st dfs md s H Hm Hs. apply served_meta_inv in Hm. destruct Hm as [mk [b [Hr [Hb Hp]]]].
   unfold stage1 in H. rewrite Hr in H. destruct H as [Hq [b' [md' [Hb' [Hp' H]]]]].
   rewrite Hb in Hb'. inversion Hb'; subst b'. rewrite Hp in Hp'. inversion Hp'; subst md'.
   rewrite Hs in H. destruct H as [lb [ms [dfss [Hlb [Hlc [Hlq [Hf Hd]]]]]]]. split; [exact Hq|].
@@ -451,10 +451,10 @@ Proof.
   - eapply forall2_impl; [|exact Hf]. intros x y Hxy. apply manifest_read_spec. exact Hxy.
 Qed.
 
-Lemma stage1_nosnap : forall E st dfs md, stage1 E st dfs -> spec_meta E st = Some md -> find_snap md = None ->
+Lemma stage1_nosnap : forall E st dfs md, stage1 E st dfs -> served_meta E st = Some md -> find_snap md = None ->
   dfs = [] /\ (mcur md = None \/ mcur md = Some (-1)).
 Proof.
-  intros E st dfs md H Hm Hs. apply spec_meta_inv in Hm. destruct Hm as [mk [b [Hr [Hb Hp]]]].
+  intros E st dfs md H Hm Hs. apply served_meta_inv in Hm. destruct Hm as [mk [b [Hr [Hb Hp]]]].
   unfold stage1 in H. rewrite Hr in H. destruct H as [_ [b' [md' [Hb' [Hp' H]]]]].
   rewrite Hb in Hb'. inversion Hb'; subst b'. rewrite Hp in Hp'. inversion Hp'; subst md'.
   rewrite Hs in H. exact H.
@@ -473,7 +473,7 @@ Qed.
 Theorem never_partial : forall E st a o ans md,
   json_not_avro E ->
   out (read_current E st a o) = Ok ans ->
-  spec_meta E st = Some md ->
+  served_meta E st = Some md ->
   spec_answer E st a md = Some ans
   /\ yielded (read_current E st a o) = match ans with ARows rows => rows | ACount _ => [] end.
 Proof.
@@ -492,11 +492,11 @@ Qed.
 
 (* ================================================================ C14_fail_closed *)
 Lemma reach_list_inv : forall E st k, reach E st RList k ->
-  exists md s, spec_meta E st = Some md /\ find_snap md = Some s /\ k = slist s.
+  exists md s, served_meta E st = Some md /\ find_snap md = Some s /\ k = slist s.
 Proof. intros E st k H. inversion H; subst. eauto. Qed.
 
 Lemma reach_manifest_inv : forall E st m, reach E st RManifest m ->
-  exists md s b ms, spec_meta E st = Some md /\ find_snap md = Some s /\ cur_bytes st (slist s) = Some b
+  exists md s b ms, served_meta E st = Some md /\ find_snap md = Some s /\ cur_bytes st (slist s) = Some b
     /\ list_content E b = Some ms /\ In (Some m) ms.
 Proof.
   intros E st m H. inversion H as [| | |l b ms m' Hl Hb Hc Hin|]; subst.
@@ -504,7 +504,7 @@ Proof.
 Qed.
 
 Lemma reach_data_inv : forall E st k, reach E st RData k ->
-  exists md s b ms m mb dfs0 df, spec_meta E st = Some md /\ find_snap md = Some s /\ cur_bytes st (slist s) = Some b
+  exists md s b ms m mb dfs0 df, served_meta E st = Some md /\ find_snap md = Some s /\ cur_bytes st (slist s) = Some b
     /\ list_content E b = Some ms /\ In (Some m) ms /\ cur_bytes st m = Some mb /\ man_content E mb = Some dfs0
     /\ In df dfs0 /\ k = dpath df.
 Proof.
@@ -593,13 +593,10 @@ Qed.
 
 (* ================================================================ C14_not_empty *)
 Theorem not_empty : forall E st a o md,
-  json_not_avro E -> spec_meta E st = Some md ->
-  ( (find_snap md = None /\ exists id, mcur md = Some id /\ id <> -1)
-    \/ (exists s, find_snap md = Some s /\ st (slist s) = Absent)
-    \/ (exists s b ms m, find_snap md = Some s /\ cur_bytes st (slist s) = Some b /\ list_content E b = Some ms
-                          /\ In (Some m) ms /\ st m = Absent) ) ->
+  json_not_avro E -> served_meta E st = Some md -> broken_snapshot E st md ->
   exists e, out (read_current E st a o) = Err e.
 Proof.
+  unfold broken_snapshot.
   intros E st a o md Hwf Hm [[Hs [id [Hid Hne]]]|[[s [Hs Ha]]|[s [b [ms [m [Hs [Hb [Hc [Hin Ha]]]]]]]]]].
   - unfold read_current. simpl.
     destruct (res_cases _ (fst (run E st a o))) as [[ans Hok]|[e He]]; [exfalso|eauto].
@@ -616,6 +613,36 @@ Proof.
     + apply dmg_absent. exact Ha.
     + unfold touched. rewrite Ha. exact I.
     + intros [Hx _]. discriminate.
+Qed.
+
+(* the current version (what the pointer names) is the version served whenever it is there *)
+Lemma spec_meta_served : forall E st md, spec_meta E st = Some md -> served_meta E st = Some md.
+Proof.
+  intros E st md H. unfold spec_meta, obind in H. destruct (hinted E st) as [mk|] eqn:Hh; [|discriminate].
+  destruct (cur_bytes st mk) as [b|] eqn:Hb; [|discriminate].
+  assert (Hp : present st mk = true) by (apply present_cur; eauto).
+  unfold served_meta, resolved, obind. rewrite Hh, Hp, Hb. exact H.
+Qed.
+
+Theorem never_partial_current : forall E st a o ans md,
+  json_not_avro E ->
+  out (read_current E st a o) = Ok ans ->
+  spec_meta E st = Some md ->
+  spec_answer E st a md = Some ans
+  /\ yielded (read_current E st a o) = match ans with ARows rows => rows | ACount _ => [] end.
+Proof.
+  intros E st a o ans md Hwf H Hm. apply never_partial; [exact Hwf|exact H|apply spec_meta_served; exact Hm].
+Qed.
+
+Theorem not_empty_partial : forall E st a o,
+  json_not_avro E ->
+  (forall mk, hinted E st = Some mk -> st mk <> Absent) ->
+  broken_table E st ->
+  exists e, out (read_current E st a o) = Err e.
+Proof.
+  intros E st a o Hwf Hp [[mk [Hh Ha]]|[md [Hm Hb]]].
+  - exfalso. exact (Hp mk Hh Ha).
+  - apply (not_empty E st a o md Hwf (spec_meta_served _ _ _ Hm) Hb).
 Qed.
 
 (* ================================================================ C14_checksum *)
@@ -681,6 +708,23 @@ Proof.
     apply (run_data_err E st a o dfs e Hr Hg). rewrite Hv. exact He.
   - intro Hothers. apply (run_data_err E st a o dfs ECorrupt Hr Hg). rewrite Hv.
     apply (mapM_only_err _ _ _ dfile_eq_dec dfs df ECorrupt); assumption.
+Qed.
+
+(* "(the default)": a call that passes no option verifies -- default_opts is {| verify := GenRead.verify_default_on |},
+   regenerated from Table._resolve_verify_checksums; if the library's default were off this proof would not check *)
+Theorem checksum_detects_by_default : forall E st a dfs df b orig,
+  reads_data a = true ->
+  fst (get_all_data_files E st) = Ok dfs -> In df dfs ->
+  dsum df = Some (sha E orig) -> st (dpath df) = Present b -> b <> orig ->
+  (sha E b = sha E orig -> b = orig) ->
+  fst (read_data E st (verify default_opts) df) = Err ECorrupt
+  /\ (exists e, out (read_current E st a default_opts) = Err e)
+  /\ ((forall df', In df' dfs -> df' <> df -> exists t, fst (read_data E st (verify default_opts) df') = Ok t) ->
+      out (read_current E st a default_opts) = Err ECorrupt).
+Proof.
+  intros E st a dfs df b orig Hr Hg Hin Hsum Hp Hne Hcf.
+  assert (Hv : verify default_opts = true) by reflexivity. rewrite Hv.
+  exact (checksum_detects E st a default_opts dfs df b orig Hv Hr Hg Hin Hsum Hp Hne Hcf).
 Qed.
 
 (* ================================================================ C14_untouched: locality *)
@@ -950,9 +994,9 @@ Proof.
   - exfalso. exact (Hn k s' b0 Hc).
 Qed.
 
-Lemma resolve_complete : forall E st r md, noflaky st -> spec_meta E st = Some md -> fst (resolve E st r) = Ok (Some md).
+Lemma resolve_complete : forall E st r md, noflaky st -> served_meta E st = Some md -> fst (resolve E st r) = Ok (Some md).
 Proof.
-  intros E st r md Hn Hm. apply spec_meta_inv in Hm. destruct Hm as [mk [b [Hres [Hb Hp]]]].
+  intros E st r md Hn Hm. apply served_meta_inv in Hm. destruct Hm as [mk [b [Hres [Hb Hp]]]].
   unfold resolve. rewrite (bind_fst_ok _ _ _ _ _ (exists_noflaky st HINT (OpExists, r) Hn)).
   assert (Hh : fst (if present st HINT then b0 <- st_get st HINT (OpRead, r) ;; ret (parse_hint E b0) else ret None) = Ok (hinted E st)).
   { unfold hinted. destruct (present st HINT) eqn:Hph.
@@ -1016,7 +1060,7 @@ Proof.
   unfold read_manifest. eapply two_stage_complete; eauto.
 Qed.
 
-Lemma get_all_complete : forall E st md, noflaky st -> spec_meta E st = Some md ->
+Lemma get_all_complete : forall E st md, noflaky st -> served_meta E st = Some md ->
   match find_snap md with
   | Some s => forall dfs, spec_dfiles E st s = Some dfs -> fst (get_all_data_files E st) = Ok dfs
   | None => (mcur md = None \/ mcur md = Some (-1)) -> fst (get_all_data_files E st) = Ok []
@@ -1058,7 +1102,7 @@ Proof.
 Qed.
 
 Theorem healthy_ok : forall E st a o md ans,
-  noflaky st -> spec_meta E st = Some md -> spec_answer E st a md = Some ans ->
+  noflaky st -> served_meta E st = Some md -> spec_answer E st a md = Some ans ->
   (forall s dfs, find_snap md = Some s -> spec_dfiles E st s = Some dfs -> sums_ok E st dfs) ->
   out (read_current E st a o) = Ok ans.
 Proof.
